@@ -36,7 +36,7 @@ class Fn:
 
 class Gen:
     def __init__(self, rng, max_depth=3, allow_throw=True, allow_float=True, allow_loops=True,
-                 allow_lambda=True, fault_rate=0.04):
+                 allow_lambda=True, fault_rate=0.04, allow_trigger=False):
         self.r = rng
         self.max_depth = max_depth
         self.allow_throw = allow_throw
@@ -44,6 +44,8 @@ class Gen:
         self.allow_loops = allow_loops
         self.allow_lambda = allow_lambda
         self.fault_rate = fault_rate          # probability of operands that may fault (x / 0, l[9])
+        self.allow_trigger = allow_trigger
+        self.use_trigger = False
         self.fns = []
         self.globals = {}                     # name -> type
         self.counter = 0
@@ -425,6 +427,9 @@ class Gen:
         if c < 0.95 and self.allow_throw and (ctx.get("in_try") or ctx.get("may_throw_ok")) and r.random() < 0.3:
             self.features.add("throw-uncaught")
             return [f"if {self.expr(T_BOOL, scopes, 0, pure=True)} {{ throw(\"fatal \" + {self.atom(T_STR, scopes)}); }}"]
+        if self.use_trigger and self.r.random() < 0.5:
+            self.features.add("trigger")
+            return [f"trigger on_tick at minute({self.expr(T_INT, scopes, d)});"]
         # call statement
         cand = [f for f in self.fns if not f.may_throw or ctx.get("may_throw_ok") or ctx.get("in_try")]
         if cand:
@@ -458,6 +463,9 @@ class Gen:
     def program(self, nfns=None):
         r = self.r
         lines = []
+        if self.allow_trigger and r.random() < 0.3:
+            self.use_trigger = True
+            lines += ["import trigger minute from triggers;", "event fn on_tick(elapsed: int) {", "    println(\"tick\", elapsed);", "}"]
         # globals: literal initialisers only
         for _ in range(r.randrange(0, 3)):
             g = self.fresh("g")
